@@ -191,9 +191,37 @@ def run_dt(block, ctx):
     ctx.sample({"y": block[0], "m": 1, "tt2ut": Epoch.tt2ut(block[0], 1)})
 
 
+def run_days(block, ctx):
+    """Thorough: every civil day of the given years x 4 times of day."""
+    st = dict(((y, m), c) for (y, m, c) in iers.states(1950, 2100))
+    for y in block:
+        for m in range(1, 13):
+            c = st[(y, m)]
+            L = cal.mlen(y, m)
+            for d in range(1, L + 1):
+                for t in ((0, 0, 0.0), (12, 0, 0.0), (23, 59, 59.0), (23, 59, 59.9)):
+                    ctx.evals += 1
+                    ctx.states += 1
+                    ctx.transitions += 1
+                    if y >= 1972:
+                        ctx.nt_count += 1
+                    for site, msg, dev in check_offset(y, m, d, t, c):
+                        ctx.viol({"y": y, "m": m, "d": d, "h": t[0], "s": t[2], "count": c, "last_day": d == L},
+                                 msg, dev=dev, site=site)
+        ctx.obs(y)
+    ctx.traces += 1
+    ctx.outcome(len(block))
+    ctx.sample({"year": block[0]})
+
+
 def clauses(tier):
     st = iers.states(1950, 2100)
-    return [
+    extra = []
+    if tier == "thorough":
+        extra = [Clause("every_day", chunks(list(range(1969, 2022)), 53), run_days,
+                        lambda c: [x[1] for x in check_offset(c["y"], c["m"], c["d"], (c["h"], 59 if c["h"] else 0, c.get("s", 0.0)), c["count"])],
+                        floor=10000, shape="S")]
+    return extra + [
         Clause("automaton", chunks(st, 48), run_states, replay_states, floor=1000, shape="S"),
         Clause("delta_t", chunks(list(range(-2000, 3001)), 16), run_dt,
                lambda c: [x[1] for x in check_dt(c["y"], c["m"])], floor=10000, shape="S"),
